@@ -183,7 +183,7 @@ func MatchJSON(n *jsonv.Node, in *Intent, s *Settings) error {
 		case zerolog.TimeFormatUnixNano:
 			div = 1
 		default:
-			w := t.Format(s.TimeFieldFormat)
+			w := ToValid(t.Format(s.TimeFieldFormat))
 			if n.Kind != jsonv.String || n.Str != w {
 				return fmt.Errorf("want time string %q, got %s", w, clip(n.Raw))
 			}
